@@ -128,6 +128,7 @@ let handle (line : ostring) : ostring =
   | "resolve", [x] -> show_res (resolve_import fuel !world x)
   | "drop", [a; b] -> show_res (symbol_drop !world a b)
   | "append", [a; b] -> show_res (symbol_append !world a b)
+  | "condexpand", [feats; clauses] -> show_res (ce_expand feats fuel !world clauses)   (* Gen/C14_CondExpand.v: *features*, fuel, W, clause list *)
   | _ -> "ERR bad request"
 
 let () =
